@@ -216,7 +216,9 @@ def run(ctx):
                 def kk(a):
                     kw = a[1] if isinstance(a, tuple) else {}
                     # coarse/fine-ordered smoothers: every (f_iterations, c_iterations) combination is its own class
-                    return (name_of(a), kw.get('sweep'), kw.get('f_iterations'), kw.get('c_iterations'))
+                    # (and every iteration count of the polynomial / stationary methods: their first-iteration shortcuts differ)
+                    its_ = kw.get('iterations') if name_of(a) in ('chebyshev', 'richardson', 'jacobi', 'polynomial') else None
+                    return (name_of(a), kw.get('sweep'), kw.get('f_iterations'), kw.get('c_iterations'), its_)
                 key = (tuple(kk(a) for a in pre), tuple(kk(a) for a in post),
                        all(kw_equal_except_sweep(a, b) for a, b in zip(pre, post)) if len(pre) == len(post) else None)
                 classes.setdefault(key, (pre, post))
@@ -251,6 +253,12 @@ def oracle(ctx, classes):
     np.random.seed(1)
     Ab = sp.bsr_array(sp.csr_array(poisson((4, 4), format='csr')), blocksize=(2, 2))
     probs.append(('real-bsr2', pyamg.smoothed_aggregation_solver(Ab, max_coarse=2, keep=True)))
+    # a hierarchy deep enough for the W-cycle to differ from V and F at several levels (>= 4 levels)
+    np.random.seed(1)
+    Ad_ = sp.csr_array(poisson((36,), format='csr'))
+    mld = pyamg.smoothed_aggregation_solver(Ad_, max_coarse=2, keep=True)
+    if len(mld.levels) >= 4:
+        probs.append(('real-deep', mld))
     items = list(classes.items())
     if not (ctx.thorough or ctx.search) and len(items) > 120:
         keep = [it for it in items if len(it[1][0]) == 1]
@@ -262,6 +270,9 @@ def oracle(ctx, classes):
             names_used = {name_of(a) for a in pre + post}
             if nm in ('complex', 'real-bsr2') and names_used & {'cf_jacobi', 'fc_jacobi', 'cf_block_jacobi', 'fc_block_jacobi', 'strength_based_schwarz'}:
                 continue      # need a C/F splitting / strength matrix, which the SA hierarchy does not carry
+            if nm == 'real-deep' and (len(pre) + len(post) > 2 or not names_used <= {'gauss_seidel', 'jacobi', 'richardson', 'chebyshev', 'sor',
+                                                                                       'block_gauss_seidel', 'schwarz', None}):
+                continue      # (single-smoother classes of the common methods only)
             if nm == 'real-bsr2' and not names_used & {'gauss_seidel', 'sor', 'block_gauss_seidel', 'block_jacobi', 'jacobi', 'gauss_seidel_ne',
                                                        'gauss_seidel_nr', 'jacobi_ne', 'schwarz'}:
                 continue      # (only the relaxation methods that have BSR-specific code paths)
